@@ -213,5 +213,19 @@ CLAIMS = {
   'technique': 'Coq: structural induction over the configured lists against the Subst relation, arithmetic proof of the translated leaf function, variant switch by translator flag; '
                'translator t_exec.py; extracted model + oracle; differential process-level harness with tools/argvprobe.c',
  },
+
+ 'C14': {
+  'text': 'Coq theorems (21, closed under the global context): for every command line and every qsort that returns a sorted permutation, the model of robsd-regress-html '
+          'renders one column per invocation in descending start-time order, one row per suite with failing suites first, the pass rate floor(100*(total-fail)/total), never '
+          'dereferences the column pointer outside the invocation vector, and writes exactly the specified output tree (every run link names a file of it). The cell of suite S under '
+          'invocation I shows the status derived from that run\'s exit code and log, linking to arch/date/log, iff S ran in I - PROVED ONLY under the guards "start times '
+          'pairwise distinct" and "each suite at most once per invocation"; without them it is refuted for every qsort (known finding run-shown-under-wrong-invocation).',
+  'note': 'Observed, not proved: that the C code is the model - generated trees (1-3 arches, 0-40 invocations, ties, duplicate suites, invalid inputs), index.html compared as a parsed matrix, '
+          'output tree by content, leaf functions on grids, ASan lane; memory safety of the binary itself is a sanitizer observation. Assumed: the file system, qsort contract, '
+          'libc string functions, names without HTML metacharacters or "/" in arch and log names, an empty output directory. D8 (float pass rate) and the D9 bound were repaired in /repo (ea4de2c, 4acd4e2); '
+          'Html/HtmlTie.v makes C14_rate and C14_no_oob stop compiling on a revert and the corpus replays the witnesses.',
+  'technique': 'Coq: executable model of regress-html.c over the C01 step-file and C13 regress-log models, comprehension spec + boolean oracle, uniqueness of strictly sorted permutations for the column walk; '
+               'translator t_html.py; process-level correspondence + extracted spec oracle on the parsed matrix; in-process leaf harness; ASan build',
+ },
 }
 NOT_APPLICABLE = {p: PENDING for p in ['C%02d' % i for i in range(1, 21)] if p not in CLAIMS}
